@@ -1325,6 +1325,14 @@ def load_enum_tables(ctx):
     return tags, blobs
 
 
+def section_ids():
+    """SectionType numbering from the regenerated table (GI_SECTION_DIRECTORY_INDEX is 1 in the published format)"""
+    path = os.path.join(VERIF, 'lean', 'GIVerif', 'Gen', 'TypelibLayout.lean')
+    with open(path, encoding='utf-8') as f:
+        text = f.read()
+    return {name: int(val) for name, val in re.findall(r'\("SectionType", "(\w+)", (\d+)\)', text)}
+
+
 # ------------------------------------------------------------------ decoded -> canonical
 class Canon(object):
     def __init__(self, raw, tags, blobs):
@@ -1940,7 +1948,8 @@ def limit_cases(rng, tier):
         return E('function', [('name', name), ('c:identifier', 'l_' + name)],
                  [E('return-value', [('transfer-ownership', 'none')], [E('type', [('name', 'none')])]), ps])
 
-    n_entries = 65535 if tier == 'thorough' else 3000
+    # above ~25 000 entries the directory index section exceeds 64 KiB (a 16-bit size variable aborted there)
+    n_entries = 65535 if tier == 'thorough' else 30000
     cases.append({'ns': 'LimE', 'version': '1.0', 'gir': ns_text('LimE', [const(i) for i in range(n_entries)]),
                   'deps': [], 'dep_ids': [], 'shlib_option': None, 'origin': 'limit:n_entries=%d' % n_entries, 'twice': False})
     nargs = 65535 if tier == 'thorough' else 300
@@ -2048,6 +2057,9 @@ class Judge(object):
         self.extent_meta = []
         self.area_reqs = []
         self.area_meta = []
+        self.dirindex_reqs = []
+        self.dirindex_meta = []
+        self.dirindex_id = section_ids().get('GI_SECTION_DIRECTORY_INDEX', 1)
 
     def prepare(self, case):
         """compile deps and the case; returns the per-case record"""
@@ -2147,7 +2159,7 @@ class Judge(object):
             ctx.report_failure(self.api_key(case, 'api'),
                                'the decoded typelib does not describe the API of the GIR: ' + '; '.join((dq or d0)[:4]),
                                replay_obj(case, {'differences': (dq or d0)[:12]}))
-        self.collect_sizes(case, raw)
+        self.collect_sizes(case, raw, data)
         # public API view of the directory (names and kinds) -- a third reading of the same bytes
         if public is not None:
             if isinstance(public, str):
@@ -2200,7 +2212,7 @@ class Judge(object):
                                                'generated layout reads %r' % (f[0], f[1], ns, c, lv))
                     break
 
-    def collect_sizes(self, case, raw):
+    def collect_sizes(self, case, raw, data):
         for e in raw['entries']:
             if not e['local']:
                 continue
@@ -2231,6 +2243,20 @@ class Judge(object):
                                'n_entries': h['n_entries'],
                                'passes': 2 if h['n_entries'] > h['n_local_entries'] else 1})
         self.area_meta.append((case['ns'], h['sections'], h['directory'], first))
+        # the directory index section is the last thing in the file: [section offset, header.size); its first
+        # 32-bit word is the builder's dirmap_offset, the 16-bit table of n_local_entries follows it
+        for sct in raw['sections']:
+            if sct['id'] == self.dirindex_id and sct['offset'] + 4 <= len(data):
+                dirmap = struct.unpack_from('<I', data, sct['offset'])[0]
+                self.dirindex_reqs.append({'op': 'c06.dirindex', 'dirmap': dirmap, 'n_local': h['n_local_entries'],
+                                           'offset2': sct['offset']})
+                self.dirindex_meta.append((case['ns'], sct['offset'], len(data), h['n_local_entries']))
+                self.cnt.hit('section:directory-index')
+                if h['n_local_entries'] >= 25000:
+                    self.cnt.hit('section:directory-index>64KiB' if len(data) - sct['offset'] > 65535
+                                 else 'section:directory-index:many-entries')
+        if not raw['sections']:
+            self.cnt.hit('section:none')
 
     def run_cases(self, cases, workers=8):
         ctx = self.ctx
@@ -2331,6 +2357,23 @@ def sizes_correspondence(ctx, judge, cnt):
                                       'size model %r' % (ns, sections, directory, first, o))
 
 
+def dirindex_correspondence(ctx, judge, cnt):
+    """size of the directory index section of every real file == the model of add_directory_index_section with the
+    width of the size variable read from girmodule.c this run (a narrower variable truncates: the model then
+    predicts a failed assertion / a shorter section and this comparison, or the compiler's abort, shows it)"""
+    if not judge.dirindex_reqs:
+        return
+    outs = ctx.driver.batch(judge.dirindex_reqs)
+    bad = 0
+    for (ns, off, size, n), o in zip(judge.dirindex_meta, outs):
+        cnt.hit('sizes:dirindex')
+        if not isinstance(o, dict) or not o.get('pack_ok') or o.get('end') != size:
+            bad += 1
+            if bad <= 3:
+                ctx.broken.append('correspondence c06.dirindex differs: %s (%d local entries) has its directory index '
+                                  'section at [%d, %d), the model of add_directory_index_section says %r' % (ns, n, off, size, o))
+
+
 def run(ctx):
     cnt = Counter()
     register_pending(ctx)
@@ -2360,6 +2403,7 @@ def run(ctx):
     ctx.log('limit cases judged')
     codec_correspondence(ctx, pipe, cnt)
     sizes_correspondence(ctx, judge, cnt)
+    dirindex_correspondence(ctx, judge, cnt)
 
     # acceptance rate of the generator: the search is void if the compiler rejects what we feed it
     n_out = cnt.counts.get('outside:rejected-by-the-compiler', 0) + cnt.counts.get('outside:dependency-not-compiled', 0)
